@@ -154,8 +154,11 @@ def run(ctx):
                 continue
             n_rec += 1
             ctx.saw(f)
-            rec = [kw.value for kw in c.keywords if kw.arg == "recursive"]
-            ok = bool(rec) and isinstance(rec[0], ast.Constant) and rec[0].value is True
+            rec = cg.arg(c, "recursive")
+            if rec is None and id(c) not in cg.param_order:
+                pos = {"find_tags": 1, "find_def_tags": 0}[c.func.attr]
+                rec = c.args[pos] if len(c.args) > pos else None
+            ok = isinstance(rec, ast.Constant) and rec.value is True
             ctx.check(ok, "R1.8", f.qualname, c, loc(f, c),
                       "the search for Def/Def-expand (or Definition) tags over the whole annotation is not recursive: a faulty Def inside a "
                       "group — `(Def/Undeclared, Blue)` — is never looked at, so the violation is reported only at the top level",
